@@ -848,7 +848,12 @@ impl Sink<Bytes> for Substream {
             };
 
             match poll_write!(&mut self.substream, cx, &pending_frame) {
-                Poll::Ready(Err(error)) => return Poll::Ready(Err(error.into())),
+                Poll::Ready(Err(error)) => {
+                    // Keep the frame: a later flush must not continue with the next frame as
+                    // if this one had been written completely.
+                    self.pending_out_frame = Some(pending_frame);
+                    return Poll::Ready(Err(error.into()));
+                }
                 Poll::Pending => {
                     // The frame is still queued: the flush is not complete.
                     self.pending_out_frame = Some(pending_frame);
